@@ -1063,7 +1063,9 @@ class PointJacobi(AbstractPoint):
     def __neg__(self):
         """Return negated point."""
         x, y, z = self.__coords
-        return PointJacobi(self.__curve, x, -y, z, self.__order)
+        return PointJacobi(
+            self.__curve, x, -y % self.__curve.p(), z, self.__order
+        )
 
 
 class Point(AbstractPoint):
